@@ -1,5 +1,5 @@
 """C10: output is a deterministic function of program, selectors and input bytes."""
-import os, json, subprocess, tempfile, shutil
+import os, json, subprocess, tempfile, shutil, time, gzip, zlib, bz2, lzma
 from concurrent.futures import ThreadPoolExecutor
 from framework import Check, Case
 from jqlib import simple_run, run_case, RunRes, JQAWK, JQH, BUILD, _run_binary, unhx
@@ -179,6 +179,128 @@ def order_prog(rng):
     return head + where + " { " + body + " }"
 
 
+# ---- objects whose keys are DISTINCT strings that denote EQUAL numbers (or no number at all in some readings), and numeric keys of
+# mixed width: anything that orders or merges keys by their numeric value instead of their bytes leaves ties to the map's random order
+NUMKEY_GROUPS = [
+    ["7", "07", "7.0", "+7", "7e0", "007", "7.00", "0x7p0", "7.", "7E0", "70e-1"],
+    ["0", "-0", "00", "0.0", "+0", "0e0", "-0.0", "000", ".0", "0.", "0e5", "-0e0"],
+    ["10", "1e1", "10.0", "1E1", "010", "+10", "1.0e1", "100e-1", "0xap0", "1e+1"],
+    ["1", "1.0", "1e0", "01", "+1", "1.", "1.00", "0x1p0", "10e-1"],
+    ["nan", "NaN", "NAN", "-nan", "+nan", "Nan"],
+    ["inf", "Inf", "+inf", "Infinity", "INF", "1e999", "+Infinity", "infinity"],
+    ["-inf", "-Inf", "-Infinity", "-1e999", "-INF"],
+    ["-5", "-05", "-5.0", "-5e0", "-5.", "-50e-1"],
+    ["0.5", ".5", "5e-1", "0.50", "00.5", "+.5", "0x1p-1"],
+    ["1e-400", "0", "1e-999", "-1e-400", "0.0"],
+    ["9007199254740992", "9007199254740993", "9007199254740992.0", "9.007199254740992e15"],
+    ["0.1", "0.10000000000000000001", "0.1000000000000000055511151231257827", "1e-1"],
+    ["true", "1", "false", "0", "null", ""],
+    [" 7", "7 ", "7", "\t7", "7\n"],
+]
+NUMKEY_WIDTHS = ["9", "10", "100", "1000", "2", "-1", "1.5", "99", "098", "2024", "2023", "999", "10000", "12", "123", "1e3", "-10", "-9", "3.14", "20", "1e2"]
+
+
+def numkey_obj(rng):
+    """{key: marker}: 2-5 spellings of one number, often further numeric keys of other widths, sometimes a key that is no number"""
+    g = rng.choice(NUMKEY_GROUPS)
+    keys = rng.sample(g, rng.randint(2, min(5, len(g))))
+    w = rng.random()
+    if w < 0.5:
+        keys += rng.sample(NUMKEY_WIDTHS, rng.randint(1, 5))
+    elif w < 0.65:
+        g2 = rng.choice(NUMKEY_GROUPS)
+        keys += rng.sample(g2, rng.randint(1, min(3, len(g2))))
+    if rng.random() < 0.15:
+        keys.append(rng.choice(["k", "x1", "_", "e", "1a"]))
+    seen, uniq = set(), []
+    for k in keys:
+        if k not in seen:
+            seen.add(k)
+            uniq.append(k)
+    rng.shuffle(uniq)
+    return {k: "v%d" % j for j, k in enumerate(uniq)}
+
+
+NUMKEY_RULES = OBJ_RULES + ["{ for (k, v in $) printf('%s=%s ', k, v)\n print '' }", "{ for (k in $) { c[k] = c[k] + 1 } }\nEND { print c\n for (k, v in c) print k, v }",
+                            "{ for (k, v in $) { r[v] = k }\n for (v, k in r) print v, k }", "{ p = $.pluck('7', '07', '0', '-0', '10', '1e1', '1', '01')\n print p\n for (k in p) print k }"]
+
+
+# ---- inputs whose first bytes look like something else than JSON (magic numbers of compressed / archive formats, byte order marks,
+# NUL) and plain ones: the result is a function of the BYTES, however they are delivered
+def delivery_payloads(rng):
+    docs = [b'{"a":1}', b'[1,2,3]', b'{"a":{"b":[1,2]}}\n{"a":2}\n', b'"text"', b'[{"a":1},{"a":2}]\n', b'{"b":1,"a":[true,null]}', b'7']
+    out = []
+    for doc in docs[:4]:
+        gz = gzip.compress(doc, mtime=0)
+        out += [("gzip of JSON", gz), ("gzip, fastest level", gzip.compress(doc, compresslevel=1, mtime=0)), ("gzip truncated", gz[:rng.randint(3, len(gz) - 1)]),
+                ("two gzip members", gz + gz), ("gzip then JSON", gz + doc), ("JSON then gzip", doc + b"\n" + gz), ("space then gzip", b" " + gz),
+                ("newline then gzip", b"\n" + gz), ("zlib of JSON", zlib.compress(doc)), ("raw deflate of JSON", zlib.compress(doc)[2:-4]),
+                ("bzip2 of JSON", bz2.compress(doc)), ("xz of JSON", lzma.compress(doc)), ("lzma-alone of JSON", lzma.compress(doc, format=lzma.FORMAT_ALONE)),
+                ("gzip magic then JSON", b"\x1f\x8b" + doc), ("gzip magic + method then JSON", b"\x1f\x8b\x08" + doc), ("first gzip byte then JSON", b"\x1f" + doc),
+                ("second gzip byte then JSON", b"\x8b" + doc), ("gzip header only", gz[:10]), ("gzip with corrupt checksum", gz[:-8] + b"\0\0\0\0" + gz[-4:]),
+                ("gzip with a file name field", gz[:3] + b"\x08" + gz[4:10] + b"in.json\0" + gz[10:])]
+    for doc in docs:
+        out += [("plain JSON", doc), ("plain JSON, truncated", doc[:max(1, len(doc) - 1)])]
+    doc = rng.choice(docs)
+    for what, lead in [("UTF-8 byte order mark", b"\xef\xbb\xbf"), ("two bytes of the UTF-8 byte order mark", b"\xef\xbb"), ("one byte of the UTF-8 byte order mark", b"\xef"),
+                       ("NUL", b"\0"), ("two NULs", b"\0\0"), ("zstd magic", b"\x28\xb5\x2f\xfd"), ("lz4 magic", b"\x04\x22\x4d\x18"), ("zip magic", b"PK\x03\x04"),
+                       ("compress (.Z) magic", b"\x1f\x9d\x90"), ("pack magic", b"\x1f\x1e"), ("bzip2 magic", b"BZh9"), ("xz magic", b"\xfd7zXZ\0"),
+                       ("tar-ish / ustar", b"ustar\0"), ("json-seq record separator", b"\x1e"), ("XSSI guard", b")]}'\n"), ("shebang", b"#!json\n"),
+                       ("snappy framing magic", b"\xff\x06\x00\x00sNaPpY"), ("brotli-looking byte", b"\x8b"), ("CBOR / msgpack looking byte", b"\xa1"), ("base64 of gzip", b"H4sIAAAAAAAA")]:
+        out.append((what + " then JSON", lead + doc))
+    out += [("UTF-16LE with byte order mark", b"\xff\xfe" + doc.decode().encode("utf-16-le")), ("UTF-16BE with byte order mark", b"\xfe\xff" + doc.decode().encode("utf-16-be")),
+            ("UTF-32LE with byte order mark", b"\xff\xfe\0\0" + doc.decode().encode("utf-32-le")), ("empty", b""), ("one space", b" "), ("tru", b"tru"), ("[1] [2", b"[1] [2"),
+            ("one byte 0x1f", b"\x1f"), ("just the gzip magic", b"\x1f\x8b")]
+    return out
+
+
+DELIVERY_PROGS = ["{ print }", "{ print $.a }", "{ n++ }\nEND { print n }", "BEGIN { print 'b' }\n{ print json($) }\nEND { print 'e' }", "END { print 'end' }"]
+
+
+def deliver(prog, data, how, wd, k, pause=0.3):
+    """(exit status, stdout) of the binary when the input bytes `data` arrive as: 'file' (a named file), 'redirect' (stdin is a regular
+    file), 'pipe' (one write), ('split', n) (a pipe: the first n bytes, a pause, then the rest)"""
+    path = os.path.join(wd, "in%d" % k)
+    if how in ("file", "redirect"):
+        with open(path, "wb") as f:
+            f.write(data)
+    try:
+        if how == "file":
+            p = subprocess.run([JQAWK, prog, path], stdin=subprocess.DEVNULL, stdout=subprocess.PIPE, stderr=subprocess.PIPE, timeout=10)
+            return p.returncode, p.stdout
+        if how == "redirect":
+            with open(path, "rb") as f:
+                p = subprocess.run([JQAWK, prog], stdin=f, stdout=subprocess.PIPE, stderr=subprocess.PIPE, timeout=10)
+            return p.returncode, p.stdout
+        if how == "pipe":
+            p = subprocess.run([JQAWK, prog], input=data, stdout=subprocess.PIPE, stderr=subprocess.PIPE, timeout=10)
+            return p.returncode, p.stdout
+        n = how[1]
+        p = subprocess.Popen([JQAWK, prog], stdin=subprocess.PIPE, stdout=subprocess.PIPE, stderr=subprocess.PIPE)
+        try:
+            try:
+                p.stdin.write(data[:n])
+                p.stdin.flush()
+                time.sleep(pause)
+                p.stdin.write(data[n:])
+                p.stdin.flush()
+            except (BrokenPipeError, OSError):
+                pass
+            try:
+                p.stdin.close()
+            except (BrokenPipeError, OSError):
+                pass
+            p.stdin = None
+            out, _ = p.communicate(timeout=10)
+            return p.returncode, out
+        finally:
+            if p.poll() is None:
+                p.kill()
+                p.wait()
+    except subprocess.TimeoutExpired:
+        return None
+
+
 class C10(Check):
     pid = "C10"
     props = ["C10_determinism.v"]
@@ -192,7 +314,12 @@ class C10(Check):
             "an ERROR (0-40 good values, then one truncated at any length / malformed / followed by more text; JSONL, concatenated, "
             "inside one top-level array; one to three files with the bad one first, in the middle or last; every chunking; failing "
             "reader), and programs whose object / array literals, argument lists, print lists and operands have members with side "
-            "effects (n++, push, pop, assignments, calls) so that the evaluation order shows in the output.  non-trivial = an object "
+            "effects (n++, push, pop, assignments, calls) so that the evaluation order shows in the output.  Objects whose keys are distinct "
+            "spellings of equal numbers (7/07/7.0/+7, 0/-0/00, 10/1e1, nan, inf ...) and numeric keys of mixed width, from the input and "
+            "built by the program, printed / iterated / plucked / counted: thirty fresh processes each.  Inputs that start like something "
+            "else than JSON (gzip / zlib / bzip2 / xz streams of JSON, whole, truncated, concatenated; magic numbers; byte order marks; NUL) "
+            "and plain ones, delivered as a named file, as a redirected file, through a pipe in one write and through a pipe split after "
+            "1, 2, 3, 4 and 10 bytes with a pause: same exit status and stdout whatever the delivery.  non-trivial = an object "
             "with at least two keys is printed or iterated")
 
     def generate(self, rng, tier):
@@ -287,6 +414,26 @@ class C10(Check):
             prog = order_prog(rng)
             inp = rng.choice(["[5]", "{\"b\":1,\"a\":2}", "7"])
             cases.append(Case(cid, simple_run(cid, prog, [inp]), {"prog": prog, "inputs": [inp], "selectors": []}, True, ("order",)))
+        # objects whose keys are distinct spellings of equal numbers / numeric keys of mixed width
+        n_num = 70 if tier == "quick" else 1500
+        for j in range(n_num):
+            cid = "n%d" % j
+            obj = numkey_obj(rng)
+            prog = "\n".join(rng.sample(NUMKEY_RULES, rng.randint(1, 2)))
+            if rng.random() < 0.7:
+                objs = [obj] + [numkey_obj(rng) for _ in range(rng.choice([0, 0, 1, 2]))]
+                doc = rng.choice(["\n", " "]).join(json.dumps(o) for o in objs) if rng.random() < 0.7 else json.dumps(objs)
+                cases.append(Case(cid, simple_run(cid, prog, [doc]), {"prog": prog, "inputs": [doc], "selectors": []}, True, ("numkey",)))
+            else:
+                lit = lambda k: "'" + k.replace("\\", "\\\\").replace("\t", "\\t").replace("\n", "\\n") + "'"
+                if rng.random() < 0.5:
+                    build = "o = {%s}" % ", ".join("%s: '%s'" % (lit(k), v) for k, v in obj.items())
+                else:
+                    build = "o = {}\n " + "\n ".join("o[%s] = '%s'" % (lit(k), v) for k, v in obj.items())
+                tail = rng.sample(["print o", "for (k in o) print k", "for (k, v in o) printf('%s=%s ', k, v)\n print ''", "print json(o)", "printf('%v\\n', o)",
+                                   "a = []\n for (k in o) a.push(k)\n print a", "for (k in o) { first = k\n break }\n print first", "print [o, {n: o}]"], rng.randint(1, 3))
+                prog = "BEGIN { " + build + "\n " + "\n ".join(tail) + " }"
+                cases.append(Case(cid, simple_run(cid, prog, []), {"prog": prog, "inputs": [], "selectors": []}, True, ("numkey",)))
         for j, prog in enumerate(METHOD_PROGS):
             cid = "m%d" % j
             inp = json.dumps({"b": 1, "a": [1, 2], "c": "s"})
@@ -359,7 +506,7 @@ class C10(Check):
 
         # (b) fresh processes of the binary: three per sampled case; ten for every case on an error path of a multi-value input and
         # for every case whose literals / argument lists have members with side effects
-        sample = [c for c in cases if c.id not in flagged and not (c.tags & {"errpath", "order"})]
+        sample = [c for c in cases if c.id not in flagged and not (c.tags & {"errpath", "order", "numkey"})]
         rng.shuffle(sample)
         sample = sample[:150 if tier == "quick" else 1200]
         many = [c for c in cases if c.id not in flagged and (c.tags & {"errpath", "order"}) and not c.meta.get("read_failure")]
@@ -367,8 +514,16 @@ class C10(Check):
         viol += v
         v2, st2 = self.fresh_binary(many, 10)
         viol += v2
-        stats["fresh_process_runs"] = st["runs"] + st2["runs"]
-        stats["inconclusive_repetitions"] += st["inconclusive"] + st2["inconclusive"]
+        # thirty for every case about keys that are distinct spellings of equal numbers
+        numk = [c for c in cases if c.id not in flagged and "numkey" in c.tags]
+        v3, st3 = self.fresh_binary(numk, 30)
+        viol += v3
+        stats["fresh_process_runs"] = st["runs"] + st2["runs"] + st3["runs"]
+        stats["inconclusive_repetitions"] += st["inconclusive"] + st2["inconclusive"] + st3["inconclusive"]
+        # (d) the same bytes delivered in different ways
+        v4, st4 = self.delivery_checks(rng, tier)
+        viol += v4
+        stats.update(st4)
         # (c) the error-path cases many more times in one process
         errs = [c for c in cases if c.id not in flagged and "errpath" in c.tags]
         lines = [relabel(c.line, "%s_r%d" % (c.id, k)) for k in range(12) for c in errs]
@@ -388,6 +543,48 @@ class C10(Check):
                                  % (base.outcome, clip(base.stdout), k + 1, r.outcome, clip(r.stdout))))
                     break
         return viol, stats
+
+
+def delivery_checks(self, rng, tier):
+    viol, stats = [], {"delivery_runs": 0, "delivery_inputs": 0}
+    jobs = []
+    for what, data in delivery_payloads(rng):
+        for prog in rng.sample(DELIVERY_PROGS, 1 if tier == "quick" else 3):
+            jobs.append((what, data, prog))
+    hows = ["file", "redirect", "pipe"] + [("split", n) for n in (1, 2, 3, 4, 10)]
+    d = tempfile.mkdtemp(prefix="c10d-", dir=BUILD)
+
+    def one(kj):
+        k, (what, data, prog) = kj
+        res = []
+        for how in hows:
+            if isinstance(how, tuple) and how[1] >= len(data):
+                continue
+            res.append((how, deliver(prog, data, how, d, k)))
+        return res
+
+    try:
+        with ThreadPoolExecutor(max_workers=16) as ex:
+            results = list(ex.map(one, enumerate(jobs)))
+    finally:
+        shutil.rmtree(d, ignore_errors=True)
+    for (what, data, prog), res in zip(jobs, results):
+        stats["delivery_inputs"] += 1
+        res = [(h, r) for h, r in res if r is not None]
+        stats["delivery_runs"] += len(res)
+        if not res:
+            continue
+        h0, r0 = res[0]
+        for h, r in res[1:]:
+            if r != r0:
+                name = lambda x: {"file": "as a named file", "redirect": "on stdin from a file", "pipe": "on stdin through a pipe in one write"}.get(x) or \
+                    "on stdin through a pipe, the first %d byte(s), a pause, then the rest" % x[1]
+                viol.append((Case("delivery", None, {"prog": prog, "input_kind": what, "input_hex": data.hex(), "inputs": [data.decode("latin-1")], "selectors": [],
+                                                     "deliveries": [[str(hh), rr[0], rr[1].decode("utf-8", "replace")] for hh, rr in res]}, True, ("delivery",)),
+                             "the same %d input bytes (%s) give different results depending on how they arrive: %s: exit %d %r; %s: exit %d %r"
+                             % (len(data), what, name(h0), r0[0], clip(r0[1]), name(h), r[0], clip(r[1]))))
+                break
+    return viol[:5], stats
 
 
 def fresh_binary(self, sample, reps, jqawk=None):
@@ -415,7 +612,7 @@ def fresh_binary(self, sample, reps, jqawk=None):
         if len(names) == 1:
             args += ["-o", "-"]
         stdin_bytes = None
-        if len(names) == 1 and (c.tags & {"errpath", "order"}) and i % 2:
+        if len(names) == 1 and (c.tags & {"errpath", "order", "numkey"}) and i % 2:
             stdin_bytes = m["inputs"][0].encode("utf-8", "surrogateescape")
         else:
             args += names
@@ -452,6 +649,7 @@ def fresh_binary(self, sample, reps, jqawk=None):
 
 
 C10.fresh_binary = fresh_binary
+C10.delivery_checks = delivery_checks
 
 
 def jtext(field):
